@@ -149,7 +149,7 @@ class GraphWidget(anywidget.AnyWidget):
     def _valid_options(self, proposal):
         options = proposal['value']
         if 'camera' in options:
-            options['camera'] = list(encode(options['camera']))[0]
+            options['camera'] = walker(encode(options['camera']))[0]
         return options
 
     def inplacereplace(self, old_subjects, new_subjects: List[Tuple[int, dict]]):
